@@ -199,7 +199,22 @@ func planDecCase(ctx *Ctx, s *schema.Schema, tg planTarget, b []byte, origin str
 	line := fmt.Sprintf("plan.dec %d %d %s", tg.dyn, tg.tag, hexUp(b))
 	ctx.current = line
 	in := append([]byte{}, b...)
-	impl, _ := unmarshalInto(s, tg, in)
+	impl, back := unmarshalInto(s, tg, in)
+	if back != nil {
+		// ---- C18 (binary): whatever is accepted re-encodes to a fixed point ----
+		r1, b1 := marshalGuard(back, tg.tag)
+		if r1 == "panic" {
+			ctx.Res.Violate(report.Violation{Property: "C18", Oracle: "reencode-total", Key: "ttlv:accepted-but-unencodable:" + s.Dyns[tg.dyn].GoType, Detail: "an accepted binary input cannot be re-encoded (encoder panics)", Line: line})
+		} else {
+			d2, back2 := unmarshalInto(s, tg, append([]byte{}, b1...))
+			if back2 == nil {
+				ctx.Res.Violate(report.Violation{Property: "C18", Oracle: "redecode", Key: "ttlv:reencoded-not-accepted:" + s.Dyns[tg.dyn].GoType, Detail: "the re-encoding of an accepted input is rejected: " + d2, Line: line})
+			} else if _, b2 := marshalGuard(back2, tg.tag); !bytes.Equal(b1, b2) {
+				ctx.Res.Violate(report.Violation{Property: "C18", Oracle: "fixed-point", Key: "ttlv:second-reencode-differs:" + s.Dyns[tg.dyn].GoType, Detail: "the second re-encoding differs from the first", Line: line})
+			}
+			// … and through the two text encodings (representable domain only: the text engine covers strings/dates)
+		}
+	}
 	if impl == "panic" {
 		ctx.Res.Violate(report.Violation{Property: "C02", Oracle: "no-panic", Key: "plan:decode-panic:" + s.Dyns[tg.dyn].GoType, Detail: "typed decoder panicked", Line: line})
 	}
